@@ -38,7 +38,7 @@ PROPS = {
         'assumptions': ['A-sem', 'A-deps', 'A-arena', 'A-std', 'A-iter', 'A-float', 'A-arith', 'A-path', 'A-limits', 'A-extract', 'A-verus'],
         'rules': 'as C03, C04, C19 and C08 (units C, D, B, I)',
         'claimed': [
-            'composite: behavioural equivalence is decomposed (DESIGN.md section 6, C01) into (a) every operator is re-emitted as the same operator on the renumbered entities (C03, unit C: 526 operator arms, control arms, memarg), (b) every entity keeps its attributes and initialisers (C04, unit D), (c) the two index maps are consistent bijections per index space (C19, unit B), (c') the emitter is driven through the in-order flattening of each body (unit T), (d) sections are emitted in dependency order over the unchanged module (C08/C12, unit I); observational equivalence then follows from A-sem (renumbering, dead-code and nop elision are unobservable)',
+            'composite: behavioural equivalence is decomposed (DESIGN.md section 6, C01) into (a) every operator is re-emitted as the same operator on the renumbered entities (C03, unit C: 526 operator arms, control arms, memarg), (b) every entity keeps its attributes and initialisers (C04, unit D), (c) the two index maps are consistent bijections per index space (C19, unit B), (e) the emitter is driven through the in-order flattening of each body (unit T), (d) sections are emitted in dependency order over the unchanged module (C08/C12, unit I); observational equivalence then follows from A-sem (renumbering, dead-code and nop elision are unobservable)',
         ],
         'unclaimed': [
             'the execution semantics itself (A-sem) -- no interpreter is available in this sandbox, behaviour is compared structurally up to renumbering',
